@@ -52,8 +52,13 @@ type geoState struct {
 		S []geoRun `json:"s"`
 		M uint32   `json:"m"`
 	} `json:"split"`
-	Fit     []uint32 `json:"fit"`
-	Add     []uint32 `json:"add"`
+	Fit    []uint32 `json:"fit"`
+	Add    []uint32 `json:"add"`
+	AddN   []int    `json:"addn"` // the count RLEs.Add must return (growth, c18_sets.go)
+	SplitX []struct {
+		Sub bool   `json:"sub"`
+		M   uint32 `json:"m"`
+	} `json:"splitx"`
 	Spans   [][4]int `json:"spans"`
 	OSpans  [][4]int `json:"ospans"` // the same region with overlapping spans
 	Blocks  [][3]int `json:"blocks"` // blocks of the region
@@ -102,7 +107,7 @@ func (g *geoCfg) module() (mod, cfg string) {
 	if g.EmitRoi {
 		roi = "TRUE"
 	}
-	cfg = fmt.Sprintf("SPECIFICATION Spec\nCONSTANTS\n XMin <- XMinDef\n XMax <- XMaxDef\n Rows <- RowsDef\n BlockSizes <- BlockSizesDef\n Bounds <- BoundsDef\n NMasks = %d\n RoiBlock <- RoiBlockDef\n Query <- QueryDef\n EmitRoi = %s\nINVARIANTS TypeOK Inv_C18_Normalize Inv_C18_Partition Inv_C18_Split Inv_C18_Fit Inv_C18_Roi Inv_C18_RoiOverlap Inv_C18_PartitionDesign Emit EmitOperands\nCHECK_DEADLOCK FALSE\n", g.NMasks, roi)
+	cfg = fmt.Sprintf("SPECIFICATION Spec\nCONSTANTS\n XMin <- XMinDef\n XMax <- XMaxDef\n Rows <- RowsDef\n BlockSizes <- BlockSizesDef\n Bounds <- BoundsDef\n NMasks = %d\n RoiBlock <- RoiBlockDef\n Query <- QueryDef\n EmitRoi = %s\nINVARIANTS TypeOK Inv_C18_Normalize Inv_C18_Partition Inv_C18_Split Inv_C18_Fit Inv_C18_Add Inv_C18_Roi Inv_C18_RoiOverlap Inv_C18_PartitionDesign Emit EmitOperands\nCHECK_DEADLOCK FALSE\n", g.NMasks, roi)
 	return sb.String(), cfg
 }
 
@@ -399,7 +404,7 @@ type roiPartCase struct {
 }
 
 type roiPartSink struct {
-	mu    sync.Mutex
+	mu     sync.Mutex
 	all    bool // both partition modes for every batch size (thorough), else alternating
 	cases  []*roiPartCase
 	failed int // partition requests that did not return a partition
@@ -1144,7 +1149,7 @@ func checkC18(c *Ctx) int {
 	trans += t1
 	tKeys := since(t0)
 
-	cfgs := c18Configs(c)
+	cfgs := append(c18Configs(c), c18LimitConfigs(c)...) // growth: lattices next to the int32 limits (c18_sets.go)
 	workers := 8
 	nodes := make([]*node.Node, workers)
 	rois := make([]*roiSess, workers)
@@ -1230,6 +1235,7 @@ func checkC18(c *Ctx) int {
 			}
 			rng := rand.New(rand.NewSource(c.Seed*7919 + int64(ci)*1000003 + int64(b)))
 			replayRuns(run, nodes[w], g, sts[lo:hi], operands, rng, &nOps)
+			replayRunsX(run, nodes[w], g, sts[lo:hi], operands, rng, &nOps) // growth: Add's count, Split by a non-subset, FitToBounds(nil)
 			if g.EmitRoi {
 				for k, st := range sts[lo:hi] {
 					replayRoi(run, rois[w], g, st, empty, lo+k, sink, rng, &nOps)
@@ -1257,6 +1263,13 @@ func checkC18(c *Ctx) int {
 	if len(sink.cases) > 0 {
 		run.Sample(map[string]interface{}{"partition_answer_judged": sink.cases[len(sink.cases)/2]})
 	}
+	// growth: optional bounds, sets of block coordinates, label-index clipping (c18_sets.go)
+	gs, gt, gn, gextra := c18Growth(c, run, nodes, rand.New(rand.NewSource(c.Seed+18)))
+	states += gs
+	trans += gt
+	nOps += gn
+	run.Set("growth", gextra)
+	run.Set("split_by_non_subset_refused_equal_other", c18SplitNonSubset)
 	run.Set("states", states)
 	run.Set("transitions", trans)
 	run.Set("traces_validated_against_impl", nOps)
@@ -1264,9 +1277,11 @@ func checkC18(c *Ctx) int {
 	run.Set("key_comparisons", nKey)
 	run.Set("configs", perCfg)
 	run.Set("exhaustive", true)
-	run.Set("rule", "run algebra / ROI: TLC enumerates EVERY presentation of every voxel set as non-overlapping runs on small lattices (incl. negative coordinates, adjacent and single-voxel runs, several rows in y and z) with specs/Geometry.tla, checks the set-level claims and prints per state the expected result of Normalize (exact runs), Partition (4 block sizes), Split (8 subsets), FitToBounds (12 boxes), Add (8 operands) as voxel sets, and for the ROI reading the stored spans and the members of a voxel query box; every state is pushed (runs in seeded order, operands additionally broken into adjacent runs) through the real dvid.RLEs functions, MarshalBinary/UnmarshalBinary/ReadRLEs/RLE.WriteTo, and through an roi instance (POST roi, GET roi, POST ptquery over the whole box, GET mask over the box and 3 seeded sub-boxes, roi.VoxelBoundsInside, GET info MinZ/MaxZ = Z extent of the spans; the same region re-posted with OVERLAPPING spans (Overlay: repeated last / inner blocks of every multi-block span; Inv_C18_RoiOverlap) must answer ptquery, mask and VoxelBoundsInside identically; DELETE roi on every 4th state must leave the empty region); ROI partition: the claims of specs/GeometryPartition.tla (subvolumes well formed, pairwise disjoint, covering every block of the region, ActiveBlocks = blocks of the region inside, sum = block count, TotalBlocks = box volume, voxel corners = block corners) are model-checked on the intended grid partition for every state and batch size 1..3 (Inv_C18_PartitionDesign), and every answer of GET partition?batchsize=1|2|3 (default and optimized=true, quick: alternating, thorough: both) is written as a constant and judged by TLC against the same claims (GeometryPartition_cases); traces_validated_against_impl = operations compared. keys / packed index: seeded int32 points + the boundary lattice {-2^31,-2^20,-1,0,1,2^20-1,2^31-1}^3 are written as constants, TLC (specs/GeometryKeys.tla) checks order isomorphism on all pairs and decoding and prints expected key bytes, ranks and packed fields, the real codecs are compared byte for byte and pairwise; decode(encode(c)) is evaluated on the real code for every |c| < 2^20 per axis. distinct_nontrivial = distinct (configuration, operation, non-empty state) + distinct points")
+	run.Set("rule", "run algebra / ROI: TLC enumerates EVERY presentation of every voxel set as non-overlapping runs on small lattices (incl. negative coordinates, adjacent and single-voxel runs, several rows in y and z) with specs/Geometry.tla, checks the set-level claims and prints per state the expected result of Normalize (exact runs), Partition (4 block sizes), Split (8 subsets), FitToBounds (12 boxes), Add (8 operands) as voxel sets, and for the ROI reading the stored spans and the members of a voxel query box; every state is pushed (runs in seeded order, operands additionally broken into adjacent runs) through the real dvid.RLEs functions, MarshalBinary/UnmarshalBinary/ReadRLEs/RLE.WriteTo, and through an roi instance (POST roi, GET roi, POST ptquery over the whole box, GET mask over the box and 3 seeded sub-boxes, roi.VoxelBoundsInside, GET info MinZ/MaxZ = Z extent of the spans; the same region re-posted with OVERLAPPING spans (Overlay: repeated last / inner blocks of every multi-block span; Inv_C18_RoiOverlap) must answer ptquery, mask and VoxelBoundsInside identically; DELETE roi on every 4th state must leave the empty region); ROI partition: the claims of specs/GeometryPartition.tla (subvolumes well formed, pairwise disjoint, covering every block of the region, ActiveBlocks = blocks of the region inside, sum = block count, TotalBlocks = box volume, voxel corners = block corners) are model-checked on the intended grid partition for every state and batch size 1..3 (Inv_C18_PartitionDesign), and every answer of GET partition?batchsize=1|2|3 (default and optimized=true, quick: alternating, thorough: both) is written as a constant and judged by TLC against the same claims (GeometryPartition_cases); traces_validated_against_impl = operations compared. keys / packed index: seeded int32 points + the boundary lattice {-2^31,-2^20,-1,0,1,2^20-1,2^31-1}^3 are written as constants, TLC (specs/GeometryKeys.tla) checks order isomorphism on all pairs and decoding and prints expected key bytes, ranks and packed fields, the real codecs are compared byte for byte and pairwise; decode(encode(c)) is evaluated on the real code for every |c| < 2^20 per axis. Growth: (a) optional bounds - GeometryBoundsAxis.tla checks exhaustively per axis that block-level screen (Divide + Outside) followed by the voxel cut (Adjust) is the intersection with the box; seeded boxes / block sizes / points / query-string token classes are evaluated by GeometryBoundsEval.tla and replayed on OptionalBounds.Adjust, Outside, OutsideX/Y/Z, BeyondZ, Divide, IsSet and OptionalBoundsFromQueryString; (b) sets of block coordinates - GeometrySets.tla enumerates EVERY subset of small block lattices (negative coordinates, coordinates next to +-2^20) and prints the expected IZYXSlice Merge / MergeCopy / Delete / Split (8 operands), FitToBounds (8 boxes), Downres, GetBounds, binary form, labels.Index.FitToBounds and Index.GetProcessedBlockIndices (scale x box x supervoxel, incl. zero-count and absent entries), per cell IZYXString.Halfres / Downres / VoxelOffset and IndexZYX.MarshalBinary; (c) run algebra additions - the count returned by RLEs.Add, Split by non-subsets, FitToBounds(nil), two lattices next to the int32 limits. distinct_nontrivial = distinct (configuration, operation, non-empty state) + distinct points + distinct bounds cases")
 	run.Assume = []string{
-		"Add is compared as a voxel set only (its result may contain overlapping runs; the returned count is not part of the property)",
+		"Add is compared as a voxel set (its result may contain overlapping runs) and its returned count with the number of voxels not there before; Split by an operand that is not a subset is only required not to panic (outcomes counted in split_by_non_subset_refused_equal_other)",
+		"lattices next to the int32 limits keep 9 voxels of distance from MaxInt32 / 16 from MinInt32 (TLC integers are 32-bit: the expected results must not overflow)",
+		"sets of block coordinates: every subset of lattices of 8-12 cells (3-4 rows), 8 operands, 8 boxes, scales 1-4; IZYXSlice.FitToBounds is given sorted input (its documented requirement)",
 		"GET roi is compared for non-overlapping span sets only (adjacent spans allowed); overlapping spans are judged by the queries",
 		"partition answers are judged by the claims only, not by equality with the intended grid partition",
 		"int32 key coordinates beyond the boundary lattice and the packed-index pairs are seeded samples, not exhaustive",
